@@ -72,7 +72,9 @@ def handleReport (line : String) : String :=
                       (if maskFlags model == maskFlags outS then ["flags"] else ["text"]) else [])
           -- specification, checked on the Go output itself
           let v : List String :=
-            if cutS == "!" then [s!"C15:cutoff-crash-or-diverge:p={prcnt}:n={n}"]
+            -- the cut-off function crashed or did not come back: no threshold (C15) and, since the report calls the
+            -- same function on the same data, no report either (C14)
+            if cutS == "!" then [s!"C15:cutoff-crash-or-diverge:p={prcnt}:n={n}", s!"C14:report-blocked-by-cutoff:p={prcnt}:n={n}"]
             else if outS == "!" then ["C14:report-crash-or-diverge"]
             else match unhex (if outS == "-" then "" else outS) with
               | none => ["C14:unreadable"]
